@@ -5,7 +5,8 @@ from . import framework, gen_trace
 from .c01 import qs
 
 SCOPES = ['top', 'top.a', 'top.a.b', 'top.ab', 'top.g<0>']
-LOCAL = ['x_valid', 'x_ready', 'x_data', 'y_valid', 'y_ready', 'yvalid', 'valid', 'v<1>_valid', 'v<1>_ready', 'xavalid', 'x.valid', 'clk']
+LOCAL = ['x_valid', 'x_ready', 'x_data', 'y_valid', 'y_ready', 'yvalid', 'valid', 'v<1>_valid', 'v<1>_ready', 'xavalid', 'x.valid', 'clk',
+         'load', 'in', 'max', 'm_last', 'first']       # local names that are also names of operators
 N = 4
 
 
@@ -22,7 +23,7 @@ def hierarchy(rng):
         # emit $scope lines for the last component (parents are already open)
         header.append(['scope', 'module', parts[-1].replace('<', '[').replace('>', ']')])
         stack.append(path)
-        names = [n for n in LOCAL if rng.random() < 0.55 and '.' not in n] or ['clk']
+        names = [n for n in LOCAL if rng.random() < (0.55 if n not in ('load', 'in', 'max', 'm_last', 'first') else 0.3) and '.' not in n] or ['clk']
         for n in names:
             vid = 'i%d' % k
             k += 1
@@ -115,7 +116,7 @@ class C05(framework.PropertyCheck):
         for _k in range(r.randint(4, 9)):
             f2 = f'f2_{_k}'
             kind = r.choice(['scoped', 'scoped', 'grouped', 'missing', 'get', 'alias', 'alias2', 'groups', 'groups', 'nest', 'nest', 'allscopes', 'setscope',
-                             'nestset', 'aliassig'])
+                             'nestset', 'aliassig', 'unalias2'])
             if kind == 'scoped':
                 sc = r.choice(SCOPES)
                 loc = [s[len(sc) + 1:] for s in local_signals(sc)]
@@ -156,7 +157,8 @@ class C05(framework.PropertyCheck):
                 break
             elif kind == 'alias2':
                 sc = r.choice(SCOPES)
-                loc = [s[len(sc) + 1:] for s in local_signals(sc)]
+                # (a quoted operator name reads as the operator, not as a symbol: such local names cannot be alias targets)
+                loc = [s[len(sc) + 1:] for s in local_signals(sc) if s[len(sc) + 1:] not in ('load', 'in', 'max', 'first')]
                 if len(loc) < 2:
                     continue
                 a, b = r.sample(loc, 2)
@@ -208,6 +210,12 @@ class C05(framework.PropertyCheck):
                 sc = r.choice(SCOPES)
                 add(f'(in-scope "{sc}" (do {opener}{inner}) {CTX}))', ('val', ctx(sc, '')), 'sortinner')
                 add(CTX, ('val', ctx('', '')), 'sortinner')
+            elif kind == 'unalias2':
+                a, b, c = r.choice(signals), r.choice(signals), r.choice(signals)
+                add(f"(do (alias q5 '{a}) (alias q6 '{b}) (alias q7 '{c}) (list q5 q6 q7))", ('val', ('L', True, (V(a), V(b), V(c)))))
+                add('(do (unalias q5 q6) q7)', ('val', V(c)))
+                add(r.choice(['q5', '(get \'q5)', 'q6']), ('err',))
+                break
             elif kind == 'aliassig':
                 # an alias may carry the name of an existing signal (patching one signal over another)
                 a, b = r.choice(signals), r.choice(signals)
